@@ -32,7 +32,7 @@ def two_process_experiment(ctx, seed, quick):
     seeds = [seed % 1000 + 7] if quick else [seed % 1000 + 7, 12345, 3]
     procs = []
     for s in seeds:
-        for variant in ("plain", "noisy", "plain2"):
+        for variant in ("plain", "noisy", "plain2", "dupcopy", "dupsame"):
             out = os.path.join(work, "%s-%d.json" % (variant, s))
             procs.append((s, variant, out, subprocess.Popen(
                 [sys.executable, "-m", "harness.repro_worker", "plain" if variant == "plain2" else variant, str(s), out, str(n)],
@@ -45,8 +45,8 @@ def two_process_experiment(ctx, seed, quick):
         res[(s, variant)] = json.load(open(out))
     ncmp = 0
     for s in seeds:
-        base = res[(s, "plain")]
-        for variant in ("noisy", "plain2"):
+        for variant in ("noisy", "plain2", "dupsame"):
+            base = res[(s, "dupcopy" if variant == "dupsame" else "plain")]
             other = res[(s, variant)]
             for k in base:
                 ncmp += 1
@@ -61,11 +61,13 @@ def two_process_experiment(ctx, seed, quick):
                         first = "first difference at call %d: %s vs %s" % (i + 1, json.dumps(base[k][i])[:200], json.dumps(other[k][i])[:200])
                     ctx.violation("repro.two_processes", "config=%s" % k,
                                   "seed %d, process '%s' (%s) vs plain process: %s" % (
-                                      s, variant, "decoy objects, junk allocations and a delay before seeding" if variant == "noisy" else "second identical run", first),
+                                      s, variant, {"noisy": "decoy objects, junk allocations and a delay before seeding",
+                                                   "plain2": "second identical run",
+                                                   "dupsame": "every observation delivered twice as the SAME dict object; reference: twice as equal copies"}[variant], first),
                                   {"config": k, "seed": s, "variant": variant, "calls": n})
     ctx.sample({"experiment": "two fresh interpreter processes", "configs": sorted(base)[:6], "one_result": {k: base[k][-1] for k in list(base)[:1] if not isinstance(base[k], str)}})
     ctx.add_stage("literal experiment: %d seeds x {identical second process, process with decoy objects / junk / delay before "
-                  "seeding} x %d explainer-storage-imputer configurations, %d calls each, compared bit for bit after every call"
+                  "seeding, same-object vs equal-copy delivery of repeated observations} x %d explainer-storage-imputer configurations, %d calls each, compared bit for bit after every call"
                   % (len(seeds), len(base), n), "two_process", comparisons=ncmp)
     ctx.traces += ncmp
     ctx.evaluations += ncmp * n
